@@ -124,6 +124,14 @@ Proof.
     destruct H as [H|H]; [discriminate|]. left. split; [exact H | exact E].
 Qed.
 
+(* C10's class asks "no two dots in a row" (sdotsv) of strings and quoted symbols since its
+   stage 7; "no dot" is inside that *)
+Lemma nodot_sdotsv (s : list Z) : nodot s -> sdotsv s.
+Proof.
+  intros H. unfold sdotsv. apply FloatProofs.nodot_sdots. apply Forall_app. split; [exact H|].
+  constructor; [discriminate|constructor].
+Qed.
+
 Lemma av_of_goodv : forall x, lossless o = true -> good_elem x -> goodv o (av_of x).
 Proof.
   intros [z|z|b|[|]|s|s] Hl H; cbn [good_elem av_of] in *.
@@ -132,9 +140,9 @@ Proof.
   - right. right. split; [exact Hl | exact H].
   - left. exact I.
   - left. exact I.
-  - left. exact H.
+  - left. cbn. split; [exact (proj1 H) | exact (nodot_sdotsv s (proj2 H))].
   - destruct (sym_plain s) eqn:E; [right; left; exact E|].
-    destruct H as [H|[H1 H2]]; [discriminate|]. left. cbn. split; [exact H1|]. split; [exact E | exact H2].
+    destruct H as [H|[H1 H2]]; [discriminate|]. left. cbn. split; [exact H1|]. split; [exact E | exact (nodot_sdotsv s H2)].
 Qed.
 
 Definition good_line (l : line) : Prop :=
